@@ -215,9 +215,34 @@ def layout_oracle(R, ctx, cases, sigprefix="c01"):
             pos = next((j for j, (a, b) in enumerate(zip(ie + [io], se + [so])) if a != b), min(len(ie), len(se)))
             got = (ie + [io])[pos] if pos <= len(ie) else None
             exp = (se + [so])[pos] if pos <= len(se) else None
-            R.violation("%s:%s:%s" % (sigprefix, c[1].split(":")[0], (exp or "len").split(" ")[0]),
-                        "well-formed %s input decodes differently from the TPM 2.0 layout interpretation: item %d is %r, expected %r"
-                        % (c[1], pos, got, exp), replay_of(c, "1", impl[k], {"expected": s}))
+            extra = {"expected": s}
+            what = "well-formed %s input decodes differently from the TPM 2.0 layout interpretation: item %d is %r, expected %r" % (c[1], pos, got, exp)
+            if len(flagged) <= 3 and len(reqs) > 64:
+                # does the input fail on its own, or only after what the same process decoded before it?
+                alone = common.run_impl("impl_worker", [reqs[k]])[0]
+                if no_pulled(alone) == no_pulled(s):
+                    n_ = common.NPROC
+                    chain = [reqs[j] for j in range(k % n_, k + 1, n_)]
+                    m_ = 2
+                    hist_ = chain
+                    while m_ <= len(chain):
+                        r_ = common.run_impl("impl_worker", chain[-m_:])
+                        if no_pulled(r_[-1]) == no_pulled(impl[k]):
+                            hist_ = chain[-m_:]
+                            break
+                        m_ = m_ * 2 if m_ * 2 <= len(chain) or m_ == len(chain) else len(chain)
+                    # drop requests from the front that are not needed
+                    while len(hist_) > 2:
+                        r_ = common.run_impl("impl_worker", hist_[1:])
+                        if no_pulled(r_[-1]) == no_pulled(impl[k]):
+                            hist_ = hist_[1:]
+                        else:
+                            break
+                    extra["decoded_alone"] = alone
+                    extra["decoded_before_in_the_same_process"] = hist_[:-1]
+                    extra["how_with_history"] = "PYTHONPATH=/repo/src /venv/bin/python /verif/harness/impl_worker.py  with stdin lines: " + " | ".join(hist_)
+                    what += " - only after %d other decode(s) in the same process (on its own it decodes as specified)" % (len(hist_) - 1)
+            R.violation("%s:%s:%s" % (sigprefix, c[1].split(":")[0], (exp or "len").split(" ")[0]), what, replay_of(c, "1", impl[k], extra))
     R.coverage["well_formed_by_spec"] = R.coverage.get("well_formed_by_spec", 0) + wf
     return flagged, reqs, impl, model, spec
 
@@ -226,6 +251,22 @@ def layout_oracle(R, ctx, cases, sigprefix="c01"):
 def c01(R, ctx):
     C = Cases(R.rng, ctx["tier"])
     cases = C.wellformed(per_type=1, per_cc=1) + C.streams(n=25)
+    # in between: decodes that are abandoned inside a size-prefixed region (input cut there, or an out-of-range value
+    # inside it). They are not well-formed and are not judged; the well-formed inputs decoded after them in the same
+    # process must not notice them.
+    sized = [c for c in cases if c[1].startswith("T:") and "TPM2B" in c[1] and len(c[2]) >= 4]
+    abandoned = []
+    for c in R.rng.sample(sized, min(len(sized), 40)):
+        abandoned.append(("abandoned-cut", c[1], c[2][:R.rng.choice([3, 3, max(3, len(c[2]) // 2), len(c[2]) - 1])], {"full": c[2]}))
+        abandoned += [("abandoned-value",) + tuple(v[1:]) for v in C.value_faults(c, per=1)]
+    if abandoned:
+        mixed = []
+        for k, c in enumerate(cases):
+            mixed.append(c)
+            if k % 4 == 3:
+                mixed.append(abandoned[(k // 4) % len(abandoned)])
+        cases = mixed
+    R.coverage["abandoned_decodes_in_between"] = sum(1 for c in cases if c[0].startswith("abandoned"))
     flagged, reqs, impl, model, spec = layout_oracle(R, ctx, cases)
     bad = correspondence(R, ctx, reqs, impl, model)
     report_disagreements(R, ctx, reqs, impl, model, bad, flagged)
@@ -244,14 +285,32 @@ def c04(R, ctx):
     cases = list(base)
     for b in base:
         cases += C.value_faults(b, per=2)
+    # successful responses decoded with a command code that names no layout (reserved gap, vendor-specific, far
+    # outside, none at all): the first field in wire order whose layout is unknowable is `handles`
+    rsps = [b for b in base if b[1].startswith("R:") and b[3].get("rc") == 0]
+    for b in R.rng.sample(rsps, min(len(rsps), 24 if ctx["tier"] == "quick" else 120)):
+        x = R.rng.choice(["-", "-", 0x15A, 0x123, 0x15F, 0x166, 0x175, 0xFFFFFFFF, 0x20000000, 0])
+        cases.append(("response-unknown-cc", "R:%s:0" % x, b[2], {"cc": x}))
     res, spec = engine(R, ctx, cases, modes=("1",), need_spec=True)
     reqs, impl, model = res["1"]
     flagged = set()
-    n_bad = n_ok = 0
+    n_bad = n_ok = n_nocc = 0
     for k, c in enumerate(cases):
         if spec is None:
             break
         s = spec[k]
+        if c[0] == "response-unknown-cc":
+            ie, io = split_result(no_pulled(impl[k]))
+            hdr_ok = len(ie) == 4 and [e.split(" ")[1] for e in ie] == ["/", "/.tag", "/.responseSize", "/.responseCode"]
+            if hdr_ok:
+                n_nocc += 1
+                f = io.split(" ")
+                if f[:4] != ["RAISE", "V", "/.handles", "TPM_CC"]:
+                    flagged.add(k)
+                    R.violation("c04:unknown-cc-path", "successful response decoded with command code %s: strict decoding ends with %r; the offending field is "
+                                "`handles` (the first field whose layout depends on the command code), its declared type TPM_CC" % (c[3]["cc"], io[:120]),
+                                replay_of(c, "1", impl[k]))
+            continue
         if s == "NOTWF":
             continue
         if ";RAISE V" in s or s.startswith("RAISE V"):
@@ -266,6 +325,7 @@ def c04(R, ctx):
                         replay_of(c, "1", impl[k], {"expected": s, "fault": c[3] if c[0].startswith("fault") else None}))
     R.coverage["with_bad_leaf"] = n_bad
     R.coverage["all_leaves_valid"] = n_ok
+    R.coverage["responses_with_unknown_command_code"] = n_nocc
     bad = correspondence(R, ctx, reqs, impl, model)
     report_disagreements(R, ctx, reqs, impl, model, bad, flagged)
     distribution(R, cases, impl)
@@ -467,6 +527,18 @@ def c02(R, ctx):
     warn_cases = []
     for b in base:
         warn_cases += C.value_faults(b, per=2)
+    # command codes outside TPM_CC: vendor-specific (bit 29), reserved gaps, far outside - in a command's header and as
+    # the code a response is decoded with; bodies longer than the header
+    odd_ccs = [0x20000000, 0x20000001, 0x2000017B, 0x30000144, 0x0000015A, 0x00000123, 0xFFFFFFFF, 0x00000000]
+    msgs = [b for b in base if b[1] == "C" or (b[1].startswith("R:") and b[1].split(":")[1] != "-")]
+    for b in R.rng.sample(msgs, min(len(msgs), 40 if ctx["tier"] == "quick" else 200)):
+        if len(b[2]) <= 10:
+            continue
+        x = R.rng.choice(odd_ccs)
+        if b[1] == "C":
+            warn_cases.append(("odd-command-code", "C", b[2][:6] + x.to_bytes(4, "big") + b[2][10:], {"cc": x}))
+        else:
+            warn_cases.append(("odd-command-code", "R:%d:%s" % (x, b[1].split(":")[2]), b[2], {"cc": x}))
     reqs = ["rt 1 %s %s" % (c[1], h(c[2])) for c in strict_cases] + ["rt 0 %s %s" % (c[1], h(c[2])) for c in warn_cases]
     allc = strict_cases + warn_cases
     res = common.run_impl("impl_worker", reqs)
@@ -1023,6 +1095,19 @@ def c12(R, ctx):
         re_, _ = C.G.response(cc, enc=True, rc=0)
         cp0, _ = C.G.command(cc, nsessions=1, encrypt=False)
         crossed.append([("R:%d:1" % cc, re_), ("C", cp0), ("R:%d:1" % cc, re_)])
+    # failed responses with response codes of every format (named by the specification or not), under different tags and
+    # with other handle / parameter / session number bits; the worker prints what it decoded between the rounds
+    rc_pool = ([0x100 + k for k in range(0, 0x80)] + [0x900 + k for k in range(0, 0x40)] + [0x080 + k for k in range(0, 0x40)]
+               + [0x0C0 + k for k in range(0, 0x40)] + [0x580 + k for k in range(0, 0x40)] + [0x001 + k for k in range(0, 0x60)] + [0xA80 + k for k in range(0, 0x40)])
+    for _ in range(30 if ctx["tier"] == "quick" else 300):
+        v = R.rng.choice(rc_pool)
+        tg = R.rng.choice([0x8001, 0x8001, 0x8002, 0x00C4])
+        cc = R.rng.choice(C.G.ccs)
+        r1_ = tg.to_bytes(2, "big") + (10).to_bytes(4, "big") + v.to_bytes(4, "big")
+        v2 = v ^ R.rng.choice([0, 0x100, 0x200, 0x400, 0x800]) if (v & 0x80) else v
+        r2_ = (0x8001).to_bytes(2, "big") + (10).to_bytes(4, "big") + v2.to_bytes(4, "big")
+        root = R.rng.choice(["R:-:0", "R:%d:0" % cc])
+        crossed.append([(root, r1_), (R.rng.choice(["R:-:0", "R:%d:0" % cc]), r2_), (root, r1_)])
     reqs = []
     hist = []
     for items in crossed:
@@ -1357,9 +1442,35 @@ def c11(R, ctx):
                     {"request": breqs[k], "implementation": bimpl[k][:2000], "model": bmodel[k][:2000], "decoder_object": impl[k][:2000],
                      "theorem": "C11_decoded_events_rebuild_the_returned_object / correspondence events_to_obj"}, found_input=found)
         break
+    # many decodes first, all rebuilds afterwards (one process): the object rebuilt from a kept event list equals the kept
+    # returned object whatever was decoded in between - in particular encrypted parameter areas of every command
+    encs = [c for c in cases if c[0] in ("wf-command-decrypt", "wf-response-encrypted")]
+    others = [c for c in cases if c[0] not in ("wf-command-decrypt", "wf-response-encrypted")]
+    batches = []
+    for _ in range(2 if ctx["tier"] == "quick" else 6):
+        batches.append(R.rng.sample(encs, min(len(encs), 120)) + R.rng.sample(others, min(len(others), 40)))
+    breqs_ = ["objsh " + ",".join("%s~%s" % (c[1], h(c[2])) for c in b_) for b_ in batches]
+    bres_ = common.run_impl("impl_worker", breqs_)
+    for b_, r, q in zip(batches, bres_, breqs_):
+        if not r.startswith("OK"):
+            k_ = int(r.split(" ")[2]) if r.split(" ")[2].isdigit() else 0
+            R.violation("c11:kept-" + r.split(" ")[1], "%d inputs decoded one after the other, their event lists and returned objects kept, then rebuilt: %s (input %s)"
+                        % (len(b_), r[:200], b_[k_][1]),
+                        {"inputs": [{"root": c[1], "input_hex": h(c[2])} for c in b_], "result": r, "how": "harness/impl_worker.py: " + q[:120] + "..."})
+    R.coverage["kept_then_rebuilt_batches"] = [len(b_) for b_ in batches]
     # the stream root: events_to_objs gives one object per message (also for a last command without its response),
     # each equal to the object built from that message on its own
     streams = C.streams(n=16, maxpairs=3)
+    # ... also a long stream whose messages carry encrypted parameter areas of many different commands
+    tb_ = ctx["tables"]
+    first2b = [cc for cc, tkey in tb_["cmd_params"] if tb_["types"][tkey]["fields"] and tb_["types"][tkey]["fields"][0]["k"] == "plain"
+               and "t" in tb_["types"][tkey]["fields"][0]["t"] and tb_["types"][tb_["types"][tkey]["fields"][0]["t"]["t"]]["k"].startswith("tpm2b")]
+    parts_ = []
+    for cc in R.rng.sample(first2b, min(len(first2b), 45)):
+        c_, ci_ = C.G.command(cc, nsessions=1, decrypt=True, encrypt=True)
+        r_, _ = C.G.response(cc, enc=True, rc=0)
+        parts_ += [c_, r_]
+    streams.append(("stream-many-encrypted", "S", b"".join(parts_), {"parts": parts_, "msgs": []}))
     sreqs = ["stream9 " + ",".join(h(p) for p in s[3]["parts"]) for s in streams]
     sres = common.run_impl("impl_worker", sreqs)
     sok = 0
@@ -1485,6 +1596,9 @@ def c15(R, ctx):
         fe_reqs.append("fe pcap " + pls); fe_meta.append(("pcap", pls, carried))
         ev_reqs.append("fevents pcap 1 S " + pls); ev_ref.append(carried); ev_meta.append(("pcap", pls))
         ev_reqs.append("fevents autopcap 1 S " + pls); ev_ref.append(carried); ev_meta.append(("auto-pcap", pls))
+        # two interfaces in one section (Ethernet and raw IP), the framing changing from packet to packet
+        ev_reqs.append("fevents pcapmix 1 S " + pls); ev_ref.append(carried); ev_meta.append(("pcap-mixed", pls))
+        ev_reqs.append("fevents autopcapmix 1 S " + pls); ev_ref.append(carried); ev_meta.append(("auto-pcap-mixed", pls))
     # malformed text
     for _ in range(40):
         s = R.rng.choice(streams)[2][:R.rng.randrange(1, 30)]
@@ -1919,6 +2033,32 @@ def c19(R, ctx):
             open(path, "wb").write(r)
             reqs.append("cliexp binary pretty Response %s %s" % (ccnames[ci["cc"]], path))
             meta.append((["convert", "--in", "binary", "--type", "Response", "--command", ccnames[ci["cc"]], path], path))
+        # several input files: `convert` decodes the bytes of all of them as one input (a pair, a message, a hex digit
+        # pair or a typed value may be split over files)
+        multi = []
+        for k, s in enumerate(streams):
+            data, parts = s[2], s[3]["parts"]
+            cutm = len(parts[0]) if len(parts) > 1 else len(data) // 2
+            multi.append(("binary", "-", data, [cutm]))
+            multi.append(("auto", "-", data, sorted({R.rng.randrange(1, len(data)), R.rng.randrange(1, len(data))})))
+            ht_ = render_hex(R.rng, data)
+            multi.append(("hex", "-", ht_, [R.rng.randrange(1, len(ht_))]))
+        for c in R.rng.sample([c for c in structs if len(c[2]) >= 2], 2 if ctx["tier"] == "quick" else 10):
+            multi.append(("binary", c[1].split(":")[2], c[2], [R.rng.randrange(1, len(c[2]))]))
+        for k, (fi, tname_, content, cuts_) in enumerate(multi if ctx["tier"] != "quick" else R.rng.sample(multi, min(len(multi), 6))):
+            pieces = [content[a:b] for a, b in zip([0] + cuts_, cuts_ + [len(content)])]
+            paths = []
+            for j, pc in enumerate(pieces):
+                pp = os.path.join(tmp, "multi%d_%d" % (k, j))
+                open(pp, "wb").write(pc)
+                paths.append(pp)
+            fo = R.rng.choice(["pretty", "events", "binary"])
+            reqs.append("cliexp %s %s %s - %s" % (fi, fo, tname_, "+".join(paths)))
+            meta.append((["convert", "--in", fi, "--out", fo] + (["--type", tname_] if tname_ != "-" else []) + paths, "+".join(paths)))
+        R.coverage["convert_runs_with_several_files"] = len([m for m in meta if "+" in m[1]])
+
+        def file_hex(pth):
+            return h(b"".join(open(x, "rb").read() for x in pth.split("+")))
         exp = common.run_impl("impl_worker", reqs, nproc=4)
         for (args, path), e, q in zip(meta, exp, reqs):
             rc, out, err = run_cli(args)
@@ -1935,11 +2075,11 @@ def c19(R, ctx):
                     R.violation("c19:convert:" + ("status" if rc != 0 else "output"),
                                 "`tpmstream %s` exits %d and prints something else than the library produces for the same bytes (first difference at character %d: %r vs %r)"
                                 % (" ".join(args[:-1]), rc, pos, got[pos:pos + 40], want[pos:pos + 40]),
-                                {"argv": args, "file_hex": h(open(path, "rb").read()), "stdout": got[:3000], "expected": want[:3000], "stderr": err[-600:]})
+                                {"argv": args, "file_hex": file_hex(path), "stdout": got[:3000], "expected": want[:3000], "stderr": err[-600:]})
             else:
                 if rc == 0:
                     R.violation("c19:convert:hides-error", "`tpmstream %s` exits 0 although the library raises %s" % (" ".join(args[:-1]), status),
-                                {"argv": args, "file_hex": h(open(path, "rb").read()), "stdout": got[:2000]})
+                                {"argv": args, "file_hex": file_hex(path), "stdout": got[:2000]})
         # refusals and the decision logic (model: Model/Cli.v)
         some = files[0][2]
         combos = [("i32", "-", "binary"), ("TPM2B_DIGEST", "-", "auto"), ("Response", "-", "binary"), ("Response", "GetRandomm", "binary"),
